@@ -136,6 +136,8 @@ def main(run):
                    "C15: the same rule executed by concurrent pool requests: %s" % poolfam.CAP_CODES[code])
     if not ok and not run.violations:
         run.report({"kind": "proof", "theorem": PID}, {"theorem": "Props/C15.v", "log": log[-3000:]}, "C15: the Coq development no longer builds and no failing input was found", no_input=True)
+    if ok:
+        interp_facts_report(run, PID, bool(run.violations))
     cov = run.coverage
     cov["discharged"] += (0 if mm or compile_fail else 1) + (0 if pm else 1)
 
